@@ -10,6 +10,14 @@ import json, os, sys
 
 HERE = os.path.dirname(os.path.dirname(os.path.abspath(__file__)))
 ANGLES = {
+    "7": ("This time make the trigger as NARROW as you can while it stays a plausible input inside the quantified domain: the breakage should "
+          "need at least TWO or THREE specific conditions to coincide — e.g. a particular option value AND a particular character class AND a "
+          "particular position (first / last / only element); a particular host shape AND a particular path shape; a value that is equal to a "
+          "boundary of the code (exactly 2 labels, exactly 11 characters, port 443 with http, an empty value next to a missing one); the second "
+          "occurrence of something rather than the first; an input that is already in canonical form except for one detail. A test generator "
+          "that draws each feature independently with moderate probability should hit the combination rarely. Any coding mechanism is fine "
+          "(off-by-one, wrong operator, narrowed regex, early return, reordered steps, stale variable after a refactor). The change must remain a "
+          "plausible maintenance edit, keep the 96 tests green, and break the property AS STATED for an input inside the quantified domain."),
     "6": ("Ideas that have NOT been used much yet: 'cleanup' refactors that remove a seemingly redundant step (a second strip, a "
           "re-validation, a defensive copy, an `or None` / `or hostname` fallback, a guard that looks unreachable, a try/except around a "
           "call that 'cannot fail'); changes whose effect only shows when two public functions are COMPOSED or when the less common of two "
@@ -48,7 +56,7 @@ def main():
         o = os.path.join(out, pid)
         os.makedirs(o, exist_ok=True)
         text = TEMPLATE.format(w=w, o=o, pid=pid, title=p["title"], statement=p["statement"], quant=p["quantifier"]["text"],
-                               angle=ANGLES[rnd], earlier="\n".join(earlier.get(pid, [])), nth={"5": "FIFTH", "6": "SIXTH"}[rnd])
+                               angle=ANGLES[rnd], earlier="\n".join(earlier.get(pid, [])), nth={"5": "FIFTH", "6": "SIXTH", "7": "SEVENTH"}[rnd])
         open(os.path.join(o, "prompt.txt"), "w").write(text)
     print(len(props), "prompts in", out)
 
